@@ -79,6 +79,31 @@ def specSnap (st : St) : List String :=
     let o := if st.cfg.keep then obj.print else "-"
     s!"{id}~{fr}~{o}")
 
+/-- one change: the code-shaped model (`handle`) answers the ordinary line, the spec (`Spec.step`)
+is remembered for the oracle lines that follow -/
+def evStep (st : St) (quiet : Bool) (t id o : String) : St × String :=
+  if !st.ready then (st, "bad-op") else
+  match WatchEvent.ofString? t, id.toNat?, json? o with
+  | some ev, some id, some obj =>
+    let r := handle st.cfg cks st.cache ev id obj
+    let sp := Spec.step (specCfg st) st.known ev id obj
+    let (tab, fired) := match r.2 with
+      | none => (st.ckTab, "-")
+      | some e =>
+        if e.ev == WatchEvent.deleted then
+          -- the checksum of a deleted object is not part of the observation
+          (st.ckTab, s!"Deleted:{e.id}@-:fr={showOptJ e.entry.fr}:obj={if e.entry.obj.isSome then 1 else 0}")
+        else let (t, s) := showEntry st.ckTab e.id e.entry; (t, s!"{e.ev.toString}:{s}")
+    let (tab, cs) := if quiet then (tab, "") else showCache tab r.1
+    let latest := match project st.cfg obj with
+      | none => if ev == WatchEvent.deleted then adel id st.latest else st.latest
+      | some _ => if ev == WatchEvent.deleted then adel id st.latest else aset id obj st.latest
+    ({ st with cache := r.1, ckTab := tab, known := sp.1, latest := latest, specFired := sp.2,
+               specFr := if st.cfg.filter.isSome then project st.cfg obj else none,
+               specFrDefined := (project st.cfg obj).isSome },
+     if quiet then s!"fired={fired}" else s!"fired={fired} cache={cs}")
+  | _, _, _ => (st, "bad-op")
+
 def step (st : St) (toks : List String) : St × String :=
   match toks with
   | "cfg" :: "v0" :: rest =>
@@ -129,28 +154,14 @@ def step (st : St) (toks : List String) : St × String :=
           match project st.cfg o with | some p => aset id p acc | none => acc) []
         let latest := objs.foldr (fun (id, o) acc => aset id o acc) []
         ({ st with cache := c, ckTab := tab, known := known, latest := latest }, s!"cache={s}")
-  | ["ev", t, id, o] =>
+  | ["ev", t, id, o] => evStep st false t id o
+  -- `evq`: the same change, the cache is not part of the answer (a batch observed at its end: the
+  -- replay of the informer's initial list in cluster mode); `cache` ends the batch
+  | ["evq", t, id, o] => evStep st true t id o
+  | ["cache"] =>
     if !st.ready then (st, "bad-op") else
-    match WatchEvent.ofString? t, id.toNat?, json? o with
-    | some ev, some id, some obj =>
-      let r := handle st.cfg cks st.cache ev id obj
-      let sp := Spec.step (specCfg st) st.known ev id obj
-      let (tab, fired) := match r.2 with
-        | none => (st.ckTab, "-")
-        | some e =>
-          if e.ev == WatchEvent.deleted then
-            -- the checksum of a deleted object is not part of the observation
-            (st.ckTab, s!"Deleted:{e.id}@-:fr={showOptJ e.entry.fr}:obj={if e.entry.obj.isSome then 1 else 0}")
-          else let (t, s) := showEntry st.ckTab e.id e.entry; (t, s!"{e.ev.toString}:{s}")
-      let (tab, cs) := showCache tab r.1
-      let latest := match project st.cfg obj with
-        | none => if ev == WatchEvent.deleted then adel id st.latest else st.latest
-        | some _ => if ev == WatchEvent.deleted then adel id st.latest else aset id obj st.latest
-      ({ st with cache := r.1, ckTab := tab, known := sp.1, latest := latest, specFired := sp.2,
-                 specFr := if st.cfg.filter.isSome then project st.cfg obj else none,
-                 specFrDefined := (project st.cfg obj).isSome },
-       s!"fired={fired} cache={cs}")
-    | _, _, _ => (st, "bad-op")
+    let (tab, cs) := showCache st.ckTab st.cache
+    ({ st with ckTab := tab }, s!"cache={cs}")
   | "oracle" :: "fired" :: rest =>
     -- the property: the change triggered iff the spec says so; the event carries the projection of
     -- the very object delivered
